@@ -345,6 +345,10 @@ def rule_unreachable(chk, rid, families=None, floor=50, also=None):
         if rel not in base:
             r.ok(rel + ':new', 'unit not on the reference tree')
             continue
+        if base[rel] > 64:
+            # the direct-flow model does not explain this unit (large tables of case blocks entered in ways it does not follow): not decided
+            r.note('%s: %d instructions not reached by direct flow on the reference tree - unit not decided' % (rel, base[rel]))
+            continue
         r.check(v['dead'] <= base[rel], rel, rel, '%s: %d instructions are unreachable by direct control flow (reference tree: %d); first unreachable '
                                                   'code at %s' % (rel, v['dead'], base[rel], '; '.join('%s+%s `%s`' % (w[0], w[1], w[2]) for w in v['where'][:6])))
 
